@@ -107,7 +107,7 @@ static int fi_site_lookup (uintptr_t ra0, uintptr_t ra1)
     if (!fi_sites) return -1;
     int n = *fi_nsites; if (n > FI_MAXSITES) n = FI_MAXSITES;
     for (int i = 0; i < n; i++) {
-        while (fi_sites[i].ra0 == 0) ;   /* another process is publishing this slot */
+        for (int spin = 0; fi_sites[i].ra0 == 0 && spin < 1000000; spin++) ;   /* another process is publishing this slot */
         if (fi_sites[i].ra0 == ra0 && fi_sites[i].ra1 == ra1) return i;
     }
     int k = __atomic_fetch_add (fi_nsites, 1, __ATOMIC_SEQ_CST);
